@@ -85,6 +85,8 @@ USES = [
     "use m, only: operator(.myop.)",
     "use, non_intrinsic :: m",
     "use m, only:",
+    "use m, only: max, sin",
+    "use m, only: cos => aa, abs",
 ]
 
 # several USE statements of one module in one scoping unit (their effects are merged)
@@ -94,6 +96,8 @@ USE_GROUPS = [
     ["use m, only: aa", "use m, only: bb, lc => aa"],
     ["use m", "use m, only:", "use m, only: operator(+)"],
     ["use m, la => aa", "use m, lb => bb", "use m, only: aa"],
+    ["use m, only: aa", "use m, only: max, dot_product"],
+    ["use m, only: sin", "use m", "use m, only: size => bb"],
 ]
 
 SPEC_F08 = [
